@@ -159,10 +159,18 @@ def accessor(ctx, letters):
             # float64 cubes reach the kernel without a cast: as they are (time last and contiguous), and as views whose
             # time axis is strided in memory
             da64 = da.astype("float64").assign_attrs(da.attrs)
-            for order in (("y", "x", "time"), ("x", "time", "y"), ("time", "y", "x")):
-                r64 = da64.transpose(*order).hdc.whit.whits(nodata=nd, sg=sgda, p=p_env)
-                _cmp_acc(ctx, sub, r64, exp.reshape(32, 32, n), ("y", "x", "time"), f"whits(sg=<raster rot {rot}>, p={p_env}) on a float64 {order} cube", y, lam, p_env, nd)
-            ctx.count(sub, evaluations=5 * N)
+            # ... stored time-first / time in the middle in memory (C order), so that the series of a pixel is strided
+            stored = {
+                "(y,x,time) contiguous": da64,
+                "(time,y,x) in memory": xr.DataArray(np.ascontiguousarray(da64.transpose("time", "y", "x").values), dims=("time", "y", "x"), coords=da64.coords, attrs=da64.attrs),
+                "(x,time,y) in memory": xr.DataArray(np.ascontiguousarray(da64.transpose("x", "time", "y").values), dims=("x", "time", "y"), coords=da64.coords, attrs=da64.attrs),
+                "(y,x,time) view of a (time,y,x) buffer": xr.DataArray(np.ascontiguousarray(da64.transpose("time", "y", "x").values), dims=("time", "y", "x"), coords=da64.coords,
+                                                                       attrs=da64.attrs).transpose("y", "x", "time"),
+            }
+            for sname, d64 in stored.items():
+                r64 = d64.hdc.whit.whits(nodata=nd, sg=sgda, p=p_env)
+                _cmp_acc(ctx, sub, r64, exp.reshape(32, 32, n), ("y", "x", "time"), f"whits(sg=<raster rot {rot}>, p={p_env}) on a float64 cube, {sname}", y, lam, p_env, nd)
+            ctx.count(sub, evaluations=6 * N)
             # the kernel result itself against the reference (lambda per pixel; -inf -> passthrough)
             fin = np.isfinite(sg)
             check_fixed(variant, y[fin], valid[fin], float(nd), lam[fin], p_env, ctx, "accessor_sgrid_reference")
